@@ -426,9 +426,9 @@ extern int re_exec();
  */
 #if defined(__FILE__) && defined(__LINE__)
 # ifdef __GNUC__
-#  define __DEBUG()  fprintf(LIBAST_DEBUG_FD, "[%lu] %12s | %4d: %s(): ", (unsigned long) time(NULL), __FILE__, __LINE__, __FUNCTION__)
+#  define __DEBUG()  libast_dprintf("[%lu] %12s | %4d: %s(): ", (unsigned long) time(NULL), __FILE__, __LINE__, __FUNCTION__)
 # else
-#  define __DEBUG()  fprintf(LIBAST_DEBUG_FD, "[%lu] %12s | %4d: ", (unsigned long) time(NULL), __FILE__, __LINE__)
+#  define __DEBUG()  libast_dprintf("[%lu] %12s | %4d: ", (unsigned long) time(NULL), __FILE__, __LINE__)
 # endif
 #else
 # define __DEBUG()   NOP
